@@ -46,13 +46,23 @@ def _premise_args_fresh_ranges(ctx, f):
     """Cell._args: the per-call `inputs` mapping is built from fresh
     `Ranges(r.ranges)` objects (only value-less references are kept as is)."""
     ranges_cls = ctx.project.cls('formulas/ranges.py', 'Ranges')
+
+    def fresh(v):
+        for c in ast.walk(v):
+            if isinstance(c, ast.Call) and isinstance(
+                    c.func, (ast.Name, ast.Attribute)):
+                r = ctx.cg.resolve_name_expr(f, c.func)
+                if r and r[0] == 'class' and r[1] is ranges_cls:
+                    return True
+        return False
+
     for n in own_nodes(f):
-        if isinstance(n, ast.DictComp):
-            for c in ast.walk(n.value):
-                if isinstance(c, ast.Call):
-                    r = ctx.cg.resolve_name_expr(f, c.func)
-                    if r and r[0] == 'class' and r[1] is ranges_cls:
-                        return True
+        if isinstance(n, ast.DictComp) and fresh(n.value):
+            return True
+        # ... or the same mapping filled item by item in a loop
+        if isinstance(n, ast.Assign) and len(n.targets) == 1 and isinstance(
+                n.targets[0], ast.Subscript) and fresh(n.value):
+            return True
     return False
 
 
@@ -442,11 +452,12 @@ def rule_names(ctx):
 
 
 def run(ctx):
+    S = ctx.soft
     from .modelstate import rule_history
     from .c03 import rule_pair
     # overriding a range or a name reaches the underlying cells through the
     # assemblers' positional protocols: same rule as C03.pair
-    pr = rule_pair(ctx)
+    pr = S(rule_pair, ctx)
     pr.prop, pr.rule = 'C07', 'C07.pair'
     keep = ('assembler', 'inverse')
     pr.obligations = [o for o in pr.obligations
@@ -458,5 +469,5 @@ def run(ctx):
     for o in pr.obligations:
         o.rule = 'C07.pair'
     pr.instances, pr.floor = max(1, len(pr.obligations)), 1
-    return [rule_nomut(ctx), rule_cache(ctx), rule_paths(ctx), rule_names(ctx),
-            rule_history(ctx, 'C07', 'C07.history'), pr]
+    return [S(rule_nomut, ctx), S(rule_cache, ctx), S(rule_paths, ctx), S(rule_names, ctx),
+            S(rule_history, ctx, 'C07', 'C07.history'), pr]
